@@ -1,5 +1,6 @@
 import LayerModel.Chain.Ledger
 import Driver.Chain
+import Driver.Slash
 namespace Driver
 open Layer Layer.Ledger
 
@@ -30,6 +31,16 @@ def runLedger (_inp : List String) (out : String) : Option Res := Id.run do
             ok := false
             note := if note.isEmpty then s!"fee paid from stake for dispute {id}: the per-backer record sums to {parts.sum}, recorded total {total}" else note
         | _ => pure ()
+    if rec.startsWith "E " then
+      -- stake taken for a dispute: the per-backer record sums to the recorded total, which is the dispute's slash amount
+      for d in (commaList (rec.drop 2).toString).filterMap parseE do
+        match d.escTotal with
+        | some et =>
+          let sm := (d.escrow.map (·.2.2)).sum
+          if sm != et || et != d.slash then
+            ok := false
+            note := if note.isEmpty then s!"stake taken for dispute {d.id}: the per-backer record sums to {sm}, recorded total {et}, slash amount {d.slash}" else note
+        | none => pure ()
     if rec.startsWith "P " then
       let fs := fieldsOf rec
       let g := fun k => ((getF fs k).bind parseInt?).getD 0
